@@ -110,7 +110,25 @@ def line_text(C, ln):
     return C.CHText(ln)
 
 
+_TEMPLATES = {}
+
+
 def build(P, case):
+    if case.get("via_fmt_obj") and case["kind"] in ("tuple", "namedtuple") and case["records"]:
+        # the way ak.mcaller_sql builds its result tables: one PPTableFormat template per process and format, handed to
+        # every table through fmt_obj= (each table gets a clone)
+        import json
+        kw = ctor_kwargs(P, case)
+        key = json.dumps([case["kind"], case["fields"], kw.get("fmt"), case.get("titles"), case.get("enums")], sort_keys=True,
+                         default=str)
+        ent = _TEMPLATES.get(key)
+        records = make_records(case)
+        if ent is None or ent[0] is not P:
+            tmpl = P.PPTableFormat.make(kw.get("fmt"), kw.get("fields"), kw.get("fields_types"), kw.get("fields_titles"),
+                                        records[0])
+            _TEMPLATES[key] = ent = (P, tmpl)
+        kw2 = {k: v for k, v in kw.items() if k in ("header", "footer", "limits", "skip_columns")}
+        return P.PPTable(records, fmt_obj=ent[1], **kw2)
     return P.PPTable(make_records(case), **ctor_kwargs(P, case))
 
 
